@@ -59,7 +59,7 @@ pub fn plan_n(data: &[u8], max_iter: usize, max_keep: usize, nkinds: usize) -> A
     for _ in 0..k {
         kinds.push(rd.below(nkinds));
     }
-    let retained_kind = rd.below(7);
+    let retained_kind = rd.below(8);
     let burst = if rd.chance(1, 3) { 500 + rd.below(6000) } else { 0 };
     AllocPlan { iterations, keep, kinds, retained_kind, burst }
 }
@@ -236,6 +236,28 @@ fn retained(kind: usize) -> Expr {
                 kind: FnKind::Lambda,
             }));
             Expr::invoke(Expr::invoke(v("Fiber"), "new", vec![outer]), "call", vec![])
+        }
+        7 => {
+            // a closure over a local of a fresh fiber that was handed the previously kept value (the
+            // closure made by the previous such fiber): the fiber finishes, so only the closure and
+            // its one captured number stay; a finished fiber's stack, arguments and locals - and what
+            // they reference, the whole chain of earlier stages - must not be kept by the closure
+            let prev_index = Expr::bin(
+                BinOp::Mod,
+                Expr::bin(BinOp::Sub, Expr::bin(BinOp::Add, v("i"), Expr::invoke(v("keep"), "len", vec![])), n(1.0)),
+                Expr::invoke(v("keep"), "len", vec![]),
+            );
+            let stage = Expr::Lambda(Rc::new(FnDef {
+                name: RefCell::new("lambda-8".to_string()),
+                params: vec!["prev".to_string()],
+                body: Body::Block(vec![
+                    Stmt::var("x", Some(v("i"))),
+                    Stmt::var("scratch", Some(Expr::VecLit(vec![v("i"), v("prev")]))),
+                    Stmt::new(StmtKind::Return(Some(lam("lambda-9", &[], v("x"))))),
+                ]),
+                kind: FnKind::Lambda,
+            }));
+            Expr::invoke(Expr::invoke(v("Fiber"), "new", vec![stage]), "call", vec![Expr::index(v("keep"), prev_index)])
         }
         _ => Expr::get(Expr::invoke(v("Node"), "new", vec![v("i")]), "get"),
     }
